@@ -43,7 +43,8 @@ CONSTANTS
   Carriers,    \* 1..K: proxies the broker can ever hand out
   NUp, NDown,  \* segments written per session, upstream / downstream
   MaxFaults,   \* bound on environment faults
-  MaxDrops     \* how many queue-full drops are made explicit (they are stuttering steps otherwise)
+  MaxDrops,    \* how many queue-full drops are made explicit (they are stuttering steps otherwise)
+  MaxStalls    \* how often an application stops reading for a while
 
 None == "none"
 Segs(n) == 1..n
@@ -60,13 +61,17 @@ VARIABLES
   up,       \* [Carriers -> 0..NUp]    upstream pipe of the carrier
   outQ,     \* [Sessions -> 0..NDown]  server's outgoing queue of the session
   down,     \* [Carriers -> 0..NDown]  downstream pipe of the carrier
+  held,     \* [Carriers -> 0..NDown]  message the data channel has DELIVERED to the client (OnMessage) and the
+            \*                         framing layer has not read yet (the synchronous pipe of WebRTCPeer)
+  stall,    \* [Sessions -> SUBSET {"up", "down"}]  directions whose reading application is currently stalled
+  nstall,   \* reader stalls so far
   rcvU,     \* [Sessions -> SUBSET 1..NUp]    segments the server's reliable layer has
   rcvD,     \* [Sessions -> SUBSET 1..NDown]  segments the client's reliable layer has
   acc,      \* [Sessions -> Nat]  connections accepted for the session
   nf,       \* faults so far
   ndrop     \* queue-full drops so far
 
-vars == <<car, owner, broken, marked, att, cur, dead, csend, up, outQ, down, rcvU, rcvD, acc, nf, ndrop>>
+vars == <<car, owner, broken, marked, att, cur, dead, csend, up, outQ, down, held, stall, nstall, rcvU, rcvD, acc, nf, ndrop>>
 
 Init ==
   /\ car = [k \in Carriers |-> "unborn"] /\ owner = [k \in Carriers |-> None]
@@ -74,6 +79,7 @@ Init ==
   /\ cur = [s \in Sessions |-> 0] /\ dead = [s \in Sessions |-> FALSE]
   /\ csend = [s \in Sessions |-> 0] /\ up = [k \in Carriers |-> 0]
   /\ outQ = [s \in Sessions |-> 0] /\ down = [k \in Carriers |-> 0]
+  /\ held = [k \in Carriers |-> 0] /\ stall = [s \in Sessions |-> {}] /\ nstall = 0
   /\ rcvU = [s \in Sessions |-> {}] /\ rcvD = [s \in Sessions |-> {}]
   /\ acc = [s \in Sessions |-> 0] /\ nf = 0 /\ ndrop = 0
 
@@ -84,7 +90,7 @@ DeliveredUp(s)   == Prefix(rcvU[s], NUp)
 DeliveredDown(s) == Prefix(rcvD[s], NDown)
 
 InFlightUp(s, i)   == csend[s] = i \/ \E k \in Carriers : owner[k] = s /\ up[k] = i
-InFlightDown(s, i) == outQ[s] = i \/ \E k \in Carriers : owner[k] = s /\ down[k] = i
+InFlightDown(s, i) == outQ[s] = i \/ \E k \in Carriers : owner[k] = s /\ (down[k] = i \/ held[k] = i)
 
 -----------------------------------------------------------------------------
 (* Broker and pool (client/lib/peers.go). *)
@@ -93,7 +99,7 @@ InFlightDown(s, i) == outQ[s] = i \/ \E k \in Carriers : owner[k] = s /\ down[k]
 Collect(k) ==
   /\ car[k] = "unborn" /\ \A j \in Carriers : j < k => car[j] # "unborn"
   /\ car' = [car EXCEPT ![k] = "pool"]
-  /\ UNCHANGED <<owner, broken, marked, att, cur, dead, csend, up, outQ, down, rcvU, rcvD, acc, nf, ndrop>>
+  /\ UNCHANGED <<owner, broken, marked, att, cur, dead, csend, up, outQ, down, held, stall, nstall, rcvU, rcvD, acc, nf, ndrop>>
 
 (* dialContext: snowflakes.Pop() (skips peers that are already closed). *)
 Pop(s, k) ==
@@ -101,7 +107,7 @@ Pop(s, k) ==
   /\ \A j \in Carriers : owner[j] = s => car[j] # "popped"
   /\ \A j \in Carriers : j < k => car[j] # "pool"
   /\ car' = [car EXCEPT ![k] = "popped"] /\ owner' = [owner EXCEPT ![k] = s]
-  /\ UNCHANGED <<broken, marked, att, cur, dead, csend, up, outQ, down, rcvU, rcvD, acc, nf, ndrop>>
+  /\ UNCHANGED <<broken, marked, att, cur, dead, csend, up, outQ, down, held, stall, nstall, rcvU, rcvD, acc, nf, ndrop>>
 
 (* Pop's loop: `if snowflake.Closed() { continue }` - a reserve that died in
    the pool AND is already marked closed is dropped without being used. *)
@@ -110,7 +116,7 @@ PopSkip(s, k) ==
   /\ \A j \in Carriers : owner[j] = s => car[j] # "popped"
   /\ \A j \in Carriers : j < k => car[j] # "pool"
   /\ car' = [car EXCEPT ![k] = "dead"]
-  /\ UNCHANGED <<owner, broken, marked, att, cur, dead, csend, up, outQ, down, rcvU, rcvD, acc, nf, ndrop>>
+  /\ UNCHANGED <<owner, broken, marked, att, cur, dead, csend, up, outQ, down, held, stall, nstall, rcvU, rcvD, acc, nf, ndrop>>
 
 (* The client's data channel OnClose callback runs some time after the
    transport died: only then is the peer MARKED closed (WebRTCPeer.Closed()).
@@ -118,7 +124,7 @@ PopSkip(s, k) ==
 MarkClosed(k) ==
   /\ broken[k] /\ ~marked[k] /\ car[k] \in {"pool", "popped"}
   /\ marked' = [marked EXCEPT ![k] = TRUE]
-  /\ UNCHANGED <<car, owner, broken, att, cur, dead, csend, up, outQ, down, rcvU, rcvD, acc, nf, ndrop>>
+  /\ UNCHANGED <<car, owner, broken, att, cur, dead, csend, up, outQ, down, held, stall, nstall, rcvU, rcvD, acc, nf, ndrop>>
 
 (* conn.Write(Token); conn.Write(clientID): the carrier becomes the current one
    and the server's handler attaches. *)
@@ -126,7 +132,7 @@ WriteId(s, k) ==
   /\ car[k] = "popped" /\ owner[k] = s /\ ~broken[k]
   /\ car' = [car EXCEPT ![k] = "live"] /\ cur' = [cur EXCEPT ![s] = k]
   /\ att' = [att EXCEPT ![k] = TRUE]
-  /\ UNCHANGED <<owner, broken, marked, dead, csend, up, outQ, down, rcvU, rcvD, acc, nf, ndrop>>
+  /\ UNCHANGED <<owner, broken, marked, dead, csend, up, outQ, down, held, stall, nstall, rcvU, rcvD, acc, nf, ndrop>>
 
 (* The first write on the popped peer fails: its transport died after Pop's
    closed-check (or before it, but the close callback had not run yet).  Two
@@ -138,7 +144,7 @@ WriteId(s, k) ==
 WriteIdFailsEffect(s, k) ==
   /\ car[k] = "popped" /\ owner[k] = s /\ broken[k]
   /\ car' = [car EXCEPT ![k] = "dead"]
-  /\ UNCHANGED <<owner, broken, marked, att, cur, dead, csend, up, outQ, down, rcvU, rcvD, acc, nf, ndrop>>
+  /\ UNCHANGED <<owner, broken, marked, att, cur, dead, csend, up, outQ, down, held, stall, nstall, rcvU, rcvD, acc, nf, ndrop>>
 WriteIdFailsMarked(s, k)   == marked[k] /\ WriteIdFailsEffect(s, k)
 WriteIdFailsUnmarked(s, k) == ~marked[k] /\ WriteIdFailsEffect(s, k)
 WriteIdFails(s, k) == WriteIdFailsMarked(s, k) \/ WriteIdFailsUnmarked(s, k)
@@ -147,7 +153,8 @@ WriteIdFails(s, k) == WriteIdFailsMarked(s, k) \/ WriteIdFailsUnmarked(s, k)
 StaleClose(s) ==
   /\ cur[s] # 0 /\ car[cur[s]] = "frozen"
   /\ car' = [car EXCEPT ![cur[s]] = "dead"] /\ cur' = [cur EXCEPT ![s] = 0]
-  /\ UNCHANGED <<owner, broken, marked, att, dead, csend, up, outQ, down, rcvU, rcvD, acc, nf, ndrop>>
+  /\ held' = [held EXCEPT ![cur[s]] = 0]
+  /\ UNCHANGED <<owner, broken, marked, att, dead, csend, up, outQ, down, stall, nstall, rcvU, rcvD, acc, nf, ndrop>>
 
 -----------------------------------------------------------------------------
 (* Packets. *)
@@ -156,7 +163,7 @@ StaleClose(s) ==
 ClientSend(s, i) ==
   /\ ~dead[s] /\ i \in Segs(NUp) /\ i \notin rcvU[s] /\ ~InFlightUp(s, i) /\ csend[s] = 0
   /\ csend' = [csend EXCEPT ![s] = i]
-  /\ UNCHANGED <<car, owner, broken, marked, att, cur, dead, up, outQ, down, rcvU, rcvD, acc, nf, ndrop>>
+  /\ UNCHANGED <<car, owner, broken, marked, att, cur, dead, up, outQ, down, held, stall, nstall, rcvU, rcvD, acc, nf, ndrop>>
 
 (* The send queue is full (nobody drains it: the redial layer is between two
    carriers, or the carrier is slow): RedialPacketConn.WriteTo DROPS the packet
@@ -169,7 +176,7 @@ ClientSendDrop(s, i) ==
   /\ ndrop < MaxDrops
   /\ ~dead[s] /\ i \in Segs(NUp) /\ i \notin rcvU[s] /\ ~InFlightUp(s, i) /\ csend[s] # 0
   /\ ndrop' = ndrop + 1
-  /\ UNCHANGED <<car, owner, broken, marked, att, cur, dead, csend, up, outQ, down, rcvU, rcvD, acc, nf>>
+  /\ UNCHANGED <<car, owner, broken, marked, att, cur, dead, csend, up, outQ, down, held, stall, nstall, rcvU, rcvD, acc, nf>>
 
 (* exchange: sendQueue -> conn.WriteTo on the current carrier (a frozen
    carrier swallows the packet). *)
@@ -177,14 +184,14 @@ CarrierUp(s) ==
   /\ csend[s] # 0 /\ cur[s] # 0 /\ up[cur[s]] = 0
   /\ up' = [up EXCEPT ![cur[s]] = IF car[cur[s]] = "live" THEN csend[s] ELSE 0]
   /\ csend' = [csend EXCEPT ![s] = 0]
-  /\ UNCHANGED <<car, owner, broken, marked, att, cur, dead, outQ, down, rcvU, rcvD, acc, nf, ndrop>>
+  /\ UNCHANGED <<car, owner, broken, marked, att, cur, dead, outQ, down, held, stall, nstall, rcvU, rcvD, acc, nf, ndrop>>
 
 (* ServerMux: QueueIncoming tagged with the carrier's ClientID + KcpInput. *)
 ServerRecv(k) ==
-  /\ att[k] /\ up[k] # 0
+  /\ att[k] /\ up[k] # 0 /\ "up" \notin stall[owner[k]]
   /\ rcvU' = [rcvU EXCEPT ![owner[k]] = @ \cup {up[k]}]
   /\ up' = [up EXCEPT ![k] = 0]
-  /\ UNCHANGED <<car, owner, broken, marked, att, cur, dead, csend, outQ, down, rcvD, acc, nf, ndrop>>
+  /\ UNCHANGED <<car, owner, broken, marked, att, cur, dead, csend, outQ, down, held, stall, nstall, rcvD, acc, nf, ndrop>>
 
 (* ServerMux: Accept.  The stream open rides on the first upstream segment;
    with nothing to send upstream the open itself is segment "0": accepted as
@@ -193,13 +200,13 @@ Accept(s) ==
   /\ acc[s] = 0
   /\ IF NUp = 0 THEN \E k \in Carriers : owner[k] = s /\ att[k] ELSE 1 \in rcvU[s]
   /\ acc' = [acc EXCEPT ![s] = @ + 1]
-  /\ UNCHANGED <<car, owner, broken, marked, att, cur, dead, csend, up, outQ, down, rcvU, rcvD, nf, ndrop>>
+  /\ UNCHANGED <<car, owner, broken, marked, att, cur, dead, csend, up, outQ, down, held, stall, nstall, rcvU, rcvD, nf, ndrop>>
 
 (* The server's reliable layer (re)transmits: QueuePacketConn.WriteTo. *)
 ServerSend(s, i) ==
   /\ acc[s] > 0 /\ i \in Segs(NDown) /\ i \notin rcvD[s] /\ ~InFlightDown(s, i) /\ outQ[s] = 0
   /\ outQ' = [outQ EXCEPT ![s] = i]
-  /\ UNCHANGED <<car, owner, broken, marked, att, cur, dead, csend, up, down, rcvU, rcvD, acc, nf, ndrop>>
+  /\ UNCHANGED <<car, owner, broken, marked, att, cur, dead, csend, up, down, held, stall, nstall, rcvU, rcvD, acc, nf, ndrop>>
 
 (* The per-client outgoing queue is full (no carrier of the session is
    attached, or it is half-open and slow): QueuePacketConn.WriteTo drops the
@@ -208,7 +215,7 @@ ServerSendDrop(s, i) ==
   /\ ndrop < MaxDrops
   /\ acc[s] > 0 /\ i \in Segs(NDown) /\ i \notin rcvD[s] /\ ~InFlightDown(s, i) /\ outQ[s] # 0
   /\ ndrop' = ndrop + 1
-  /\ UNCHANGED <<car, owner, broken, marked, att, cur, dead, csend, up, outQ, down, rcvU, rcvD, acc, nf>>
+  /\ UNCHANGED <<car, owner, broken, marked, att, cur, dead, csend, up, outQ, down, held, stall, nstall, rcvU, rcvD, acc, nf>>
 
 (* ServerMux: DownFrame(k) pops the outgoing queue of the carrier's ClientID;
    a half-open or frozen carrier swallows the packet. *)
@@ -216,20 +223,49 @@ DownFrame(k) ==
   /\ att[k] /\ outQ[owner[k]] # 0 /\ down[k] = 0
   /\ down' = [down EXCEPT ![k] = IF car[k] = "live" /\ ~broken[k] THEN outQ[owner[k]] ELSE 0]
   /\ outQ' = [outQ EXCEPT ![owner[k]] = 0]
-  /\ UNCHANGED <<car, owner, broken, marked, att, cur, dead, csend, up, rcvU, rcvD, acc, nf, ndrop>>
+  /\ UNCHANGED <<car, owner, broken, marked, att, cur, dead, csend, up, held, stall, nstall, rcvU, rcvD, acc, nf, ndrop>>
 
-(* exchange: conn.ReadFrom -> recvQueue -> the client's reliable layer. *)
+(* WebRTCPeer's OnMessage: the data channel DELIVERS the next message to the
+   client.  The carrier is reliable and ordered, and from here on nothing may
+   be lost before the framing layer has read it: OnMessage hands the message
+   to a synchronous pipe and does not return before it has been read, so while
+   a message is held the data channel delivers no further one (back-pressure;
+   the slot down[k] stays full and the server's write loop waits). *)
+OnMessage(k) ==
+  /\ down[k] # 0 /\ held[k] = 0 /\ car[k] = "live" /\ ~broken[k]
+  /\ held' = [held EXCEPT ![k] = down[k]]
+  /\ down' = [down EXCEPT ![k] = 0]
+  /\ UNCHANGED <<car, owner, broken, marked, att, cur, dead, csend, up, outQ, stall, nstall, rcvU, rcvD, acc, nf, ndrop>>
+
+(* exchange: encapsulation ReadData on the pipe -> recvQueue -> the client's
+   reliable layer.  A stalled reading application eventually stops everything
+   above the pipe (stream window, receive buffers); the model takes the
+   extreme: while the application behind the client is stalled nothing is
+   read from the pipe. *)
 ClientRecv(s) ==
-  /\ cur[s] # 0 /\ down[cur[s]] # 0
-  /\ rcvD' = [rcvD EXCEPT ![s] = @ \cup {down[cur[s]]}]
-  /\ down' = [down EXCEPT ![cur[s]] = 0]
-  /\ UNCHANGED <<car, owner, broken, marked, att, cur, dead, csend, up, outQ, rcvU, acc, nf, ndrop>>
+  /\ cur[s] # 0 /\ held[cur[s]] # 0 /\ "down" \notin stall[s]
+  /\ rcvD' = [rcvD EXCEPT ![s] = @ \cup {held[cur[s]]}]
+  /\ held' = [held EXCEPT ![cur[s]] = 0]
+  /\ UNCHANGED <<car, owner, broken, marked, att, cur, dead, csend, up, outQ, down, stall, nstall, rcvU, acc, nf, ndrop>>
+
+(* The application that reads a direction ("down": behind the client, "up":
+   behind the server) stops reading for a while and resumes (environment;
+   bounded; resuming is fair - the property speaks of a reader that comes
+   back).  The stream must then continue exact and ordered. *)
+ReaderStalls(s, d) ==
+  /\ nstall < MaxStalls /\ d \notin stall[s]
+  /\ nstall' = nstall + 1 /\ stall' = [stall EXCEPT ![s] = @ \cup {d}]
+  /\ UNCHANGED <<car, owner, broken, marked, att, cur, dead, csend, up, outQ, down, held, rcvU, rcvD, acc, nf, ndrop>>
+ReaderResumes(s, d) ==
+  /\ d \in stall[s]
+  /\ stall' = [stall EXCEPT ![s] = @ \ {d}]
+  /\ UNCHANGED <<car, owner, broken, marked, att, cur, dead, csend, up, outQ, down, held, nstall, rcvU, rcvD, acc, nf, ndrop>>
 
 (* The server's handler notices that its carrier is gone. *)
 SrvDetach(k) ==
   /\ att[k] /\ car[k] = "dead" /\ up[k] = 0
   /\ att' = [att EXCEPT ![k] = FALSE]
-  /\ UNCHANGED <<car, owner, broken, marked, cur, dead, csend, up, outQ, down, rcvU, rcvD, acc, nf, ndrop>>
+  /\ UNCHANGED <<car, owner, broken, marked, cur, dead, csend, up, outQ, down, held, stall, nstall, rcvU, rcvD, acc, nf, ndrop>>
 
 -----------------------------------------------------------------------------
 (* Faults (environment; bounded by MaxFaults; no fairness). *)
@@ -242,11 +278,12 @@ Cut(k) ==
   /\ nf < MaxFaults /\ car[k] \in {"pool", "popped", "live", "frozen"} /\ ~broken[k]
   /\ nf' = nf + 1
   /\ up' = [up EXCEPT ![k] = 0] /\ down' = [down EXCEPT ![k] = 0]
+  /\ held' = [held EXCEPT ![k] = 0]          \* the client closes the peer: its pipe goes with it
   /\ IF car[k] \in {"pool", "popped"}
        THEN broken' = [broken EXCEPT ![k] = TRUE] /\ UNCHANGED <<car, cur>>
        ELSE /\ car' = [car EXCEPT ![k] = "dead"] /\ UNCHANGED broken
             /\ cur' = [s \in Sessions |-> IF cur[s] = k THEN 0 ELSE cur[s]]
-  /\ UNCHANGED <<owner, marked, att, dead, csend, outQ, rcvU, rcvD, acc, ndrop>>
+  /\ UNCHANGED <<owner, marked, att, dead, csend, outQ, stall, nstall, rcvU, rcvD, acc, ndrop>>
 
 (* The proxy freezes (SIGSTOP, black hole): nothing passes any more. *)
 Freeze(k) ==
@@ -254,14 +291,14 @@ Freeze(k) ==
   /\ nf' = nf + 1
   /\ car' = [car EXCEPT ![k] = "frozen"]
   /\ up' = [up EXCEPT ![k] = 0] /\ down' = [down EXCEPT ![k] = 0]
-  /\ UNCHANGED <<owner, broken, marked, att, cur, dead, csend, outQ, rcvU, rcvD, acc, ndrop>>
+  /\ UNCHANGED <<owner, broken, marked, att, cur, dead, csend, outQ, held, stall, nstall, rcvU, rcvD, acc, ndrop>>
 
 (* The broker's answer is lost / no proxy: this proxy never materialises. *)
 AnswerLost(k) ==
   /\ nf < MaxFaults /\ car[k] = "unborn" /\ \A j \in Carriers : j < k => car[j] # "unborn"
   /\ nf' = nf + 1
   /\ car' = [car EXCEPT ![k] = "dead"]
-  /\ UNCHANGED <<owner, broken, marked, att, cur, dead, csend, up, outQ, down, rcvU, rcvD, acc, ndrop>>
+  /\ UNCHANGED <<owner, broken, marked, att, cur, dead, csend, up, outQ, down, held, stall, nstall, rcvU, rcvD, acc, ndrop>>
 
 -----------------------------------------------------------------------------
 ClientNext ==
@@ -269,6 +306,7 @@ ClientNext ==
   \/ \E s \in Sessions, k \in Carriers : WriteIdFailsMarked(s, k) \/ WriteIdFailsUnmarked(s, k)
   \/ \E k \in Carriers : MarkClosed(k)
   \/ \E s \in Sessions : StaleClose(s) \/ CarrierUp(s) \/ ClientRecv(s)
+  \/ \E k \in Carriers : OnMessage(k)
   \/ \E s \in Sessions, i \in Segs(NUp) : ClientSend(s, i) \/ ClientSendDrop(s, i)
 ServerNext ==
   \/ \E k \in Carriers : ServerRecv(k) \/ DownFrame(k) \/ SrvDetach(k)
@@ -276,6 +314,7 @@ ServerNext ==
   \/ \E s \in Sessions, i \in Segs(NDown) : ServerSend(s, i) \/ ServerSendDrop(s, i)
 EnvNext ==
   \/ \E k \in Carriers : Collect(k)
+  \/ \E s \in Sessions, d \in {"up", "down"} : ReaderStalls(s, d) \/ ReaderResumes(s, d)
 FaultNext ==
   \/ \E k \in Carriers : Cut(k) \/ Freeze(k) \/ AnswerLost(k)
 
@@ -289,7 +328,8 @@ Fair ==
   /\ \A s \in Sessions : WF_vars(StaleClose(s)) /\ WF_vars(CarrierUp(s)) /\ WF_vars(ClientRecv(s)) /\ WF_vars(Accept(s))
   /\ \A s \in Sessions, i \in Segs(NUp) : WF_vars(ClientSend(s, i))
   /\ \A s \in Sessions, i \in Segs(NDown) : WF_vars(ServerSend(s, i))
-  /\ \A k \in Carriers : WF_vars(ServerRecv(k)) /\ WF_vars(DownFrame(k)) /\ WF_vars(SrvDetach(k)) /\ WF_vars(Collect(k))
+  /\ \A k \in Carriers : WF_vars(ServerRecv(k)) /\ WF_vars(DownFrame(k)) /\ WF_vars(SrvDetach(k)) /\ WF_vars(Collect(k)) /\ WF_vars(OnMessage(k))
+  /\ \A s \in Sessions, d \in {"up", "down"} : WF_vars(ReaderResumes(s, d))
 FairSpec == Spec /\ Fair
 
 -----------------------------------------------------------------------------
@@ -297,7 +337,7 @@ TypeOK ==
   /\ car \in [Carriers -> {"unborn", "pool", "popped", "live", "frozen", "dead"}]
   /\ cur \in [Sessions -> Carriers \cup {0}]
   /\ \A s \in Sessions : csend[s] \in 0..NUp /\ outQ[s] \in 0..NDown
-  /\ \A k \in Carriers : up[k] \in 0..NUp /\ down[k] \in 0..NDown
+  /\ \A k \in Carriers : up[k] \in 0..NUp /\ down[k] \in 0..NDown /\ held[k] \in 0..NDown
 
 (* Safety half of C01: what the applications have read is always a prefix of
    what was written, and only segments of the session itself ever reach its
@@ -313,6 +353,14 @@ PrefixDelivered ==
 OnlyOwnSegments ==
   \A k \in Carriers : (up[k] # 0 \/ down[k] # 0 \/ att[k]) => owner[k] \in Sessions
 OneAcceptPerSession == \A s \in Sessions : acc[s] <= 1
+(* Nothing the data channel delivered is dropped before the framing layer: a
+   held message leaves the pipe only by being read (it is then in the client's
+   reliable layer) or together with its carrier when the client lets that go;
+   and it is never overwritten by the next one. *)
+NoLossBeforeFraming ==
+  [][\A k \in Carriers : held[k] # 0 /\ held'[k] # held[k] =>
+        /\ held'[k] = 0
+        /\ (held[k] \in rcvD'[owner[k]] \/ car'[k] = "dead")]_vars
 (* The redial layer exchanges on at most one carrier and only on one it popped. *)
 OneCurrent ==
   \A s \in Sessions : cur[s] # 0 => owner[cur[s]] = s /\ car[cur[s]] \in {"live", "frozen"}
